@@ -43,6 +43,7 @@ func corpusSize() int {
 func buildCorpus(seed uint64) []CorpusItem {
 	simrt.Seed(splitmix(seed ^ 0xC19C19))
 	n := corpusSize()
+	pd := probeDocs()
 	items := make([]CorpusItem, 0, n)
 	for len(items) < n {
 		cfg := genCfg(true)
@@ -56,7 +57,7 @@ func buildCorpus(seed uint64) []CorpusItem {
 			// functions the config may not have: ErrorFunctionNotFound for some configs
 			p = genPath(1<<nFuncs-1, false, 3, 2)
 		default:
-			p = genPath(cfg.Funcs, chance(20), 4, 2)
+			p = genPathFor(pd[rn(len(pd))], cfg.Funcs, chance(20), 4, 2)
 		}
 		items = append(items, CorpusItem{Path: p.Text, Cfg: cfg, Fail: p.Fail})
 	}
